@@ -181,8 +181,12 @@ func LRGrammarGen(stateful bool) *rapid.Generator[*Grammar] {
 			g.Entries = append(g.Entries, w.Name)
 		}
 		g.Pkg = "p"
-		if len(g.Rules) > 1 && c.chance(12, "decoyrule") {
+		if len(g.Rules) > 1 && c.chance(15, "decoyrule") {
 			g.Decoy = g.Rules[c.intn(1, len(g.Rules)-1, "decoyidx")].Name
+			if len(lnames) > 1 && c.chance(70, "decoylevel") {
+				// preferably a left-recursive level that is not the first rule
+				g.Decoy = lnames[c.intn(1, len(lnames)-1, "decoylevelidx")]
+			}
 		}
 		g.Analyze()
 		if err := g.Validate(); err != nil {
